@@ -456,6 +456,8 @@ def _is_str_const(t):
 
 def _label_eq(s, t, depth=0):
     """Equality of label terms; conditionals over concrete strings are resolved (distinct concrete strings are different)."""
+    if s.eq(t):
+        return z3.BoolVal(True)
     if _is_str_const(s) and _is_str_const(t):
         return z3.BoolVal(s.decl().name() == t.decl().name())
     if depth < 40:
